@@ -129,11 +129,33 @@ def corpus_grammars():
     out.append(dict(id="c%d" % len(out), nact=3, pinned=["hf", "hfg", "dhf", "fgf", "hfgd"], rules=[
         ("S", ("seq", [N("R0"), ("q", c("f")), ("not", ("dot",))])),
         ("R0", ("plus", ("alt", [("seq", [("push", c("f")), c("g")]), c("h"), c("d")])))]))
+    # a choice whose alternatives' first sets are pairwise disjoint and cover every code point: under -switch the end
+    # symbol still reaches the default clause (seed C13-switch-default-full-cover)
+    out.append(dict(id="c%d" % len(out), nact=3, pinned=["", "a", "a\u00e9\u65e5", "\U0010ffff", "\x00\x7f\x80"], rules=[
+        ("R0", ("seq", [("star", N("R1")), ("not", ("dot",))])),
+        ("R1", ("alt", [("cls", False, False, [("r", 0, 0x7F)]), ("cls", False, False, [("r", 0x80, 0x7FF)]), ("cls", False, False, [("r", 0x800, 0x10FFFF)])]))]))
+    # an error token whose first rune is a line break (seed C11-endcol-newline-first)
+    out.append(dict(id="c%d" % len(out), nact=3, pinned=["ab\ncd\nab!", "\nab!", "a\nb\n!", "ab\n\ncd"], rules=[
+        ("R0", ("seq", [("star", N("R1")), ("not", ("dot",))])),
+        ("R1", ("alt", [("seq", [c("\n"), ("plus", cls)]), ("plus", cls)]))]))
+    # rules that re-enter each other three times through non-left positions with first sets of equal size: the first-set
+    # iteration of -switch must run to a real fixed point (seed C02-fixpoint-by-size)
+    out.append(dict(id="c%d" % len(out), nact=3, pinned=["xxuxucxucd", "xxuxuc", "xxu", "xxuxucxf"], rules=[
+        ("Top", ("seq", [N("S"), ("not", ("dot",))])),
+        ("S", ("seq", [c("x"), ("q", N("T"))])),
+        ("T", ("seq", [N("U"), ("q", N("W"))])),
+        ("U", ("seq", [N("S"), c("u")])),
+        ("W", ("seq", [N("C"), ("q", N("D"))])),
+        ("C", ("seq", [N("T"), c("c")])),
+        ("D", ("alt", [("seq", [N("W"), c("d")]), ("seq", [c("x"), c("f")]), c("k"), c("l")]))]))
     return out
 
 
 def make_inputs(ctx, g, n):
-    gen = P.grammar_inputs(ctx.rng, g["rules"], n)
+    # one generator per grammar, derived from the run's seed and the grammar's id: adding a grammar to the corpus
+    # leaves the inputs of every other grammar as they were
+    import random
+    gen = P.grammar_inputs(random.Random("%d/%s/%s" % (ctx.seed, ctx.tier, g["id"])), g["rules"], n)
     pinned = list(g.get("pinned", []))
     return pinned + gen[:max(0, n - len(pinned))]
 
